@@ -29,6 +29,8 @@ const modPath = "github.com/textwire/textwire/v2"
 type Model struct {
 	lookupTableAt  map[*ssa.Parameter]ssa.Value
 	ifCaseRes      *ifCaseResult
+	eachCaseRes    *loopCaseResult
+	forCaseRes     *loopCaseResult
 	newTokenUnread bool // newToken ends a token that has read nothing on the current character
 	lexModeDone    bool
 	lexMode        *lexModePred
@@ -234,7 +236,29 @@ func (m *Model) PkgFunc(pkg, name string) *ssa.Function {
 	if fn := sp.Func(name); fn != nil {
 		return fn
 	}
-	return curAliases.fnByRefKey[pkg+"||"+name] // renamed since the reference tree
+	if fn := curAliases.fnByRefKey[pkg+"||"+name]; fn != nil { // renamed since the reference tree
+		return fn
+	}
+	// a plain function may have become a method: unique method of that name on a type of the package
+	var found *ssa.Function
+	for _, mem := range sp.Members {
+		if t, ok := mem.(*ssa.Type); ok {
+			for _, T := range []types.Type{types.NewPointer(t.Type()), t.Type()} {
+				ms := m.Prog.MethodSets.MethodSet(T)
+				for i := 0; i < ms.Len(); i++ {
+					if ms.At(i).Obj().Name() == name && ms.At(i).Obj().Pkg() == sp.Pkg {
+						if fn := m.Prog.MethodValue(ms.At(i)); fn != nil && fn.Synthetic == "" && fn.Blocks != nil {
+							if found != nil && found != fn {
+								return nil
+							}
+							found = fn
+						}
+					}
+				}
+			}
+		}
+	}
+	return found
 }
 
 func fullPkg(short string) string {
@@ -264,7 +288,15 @@ func (m *Model) Method(pkg, typ, name string) *ssa.Function {
 			}
 		}
 	}
-	return curAliases.fnByRefKey[pkg+"|"+typ+"|"+name] // renamed since the reference tree
+	if fn := curAliases.fnByRefKey[pkg+"|"+typ+"|"+name]; fn != nil { // renamed since the reference tree
+		return fn
+	}
+	// a method that does not use its receiver may have become a plain function of the same name (and the reverse:
+	// PkgFunc looks among the methods): the rules address parameters by type or from the end, not by receiver position
+	if fn := sp.Func(name); fn != nil && fn.Blocks != nil {
+		return fn
+	}
+	return nil
 }
 
 // Pos renders a position relative to the repo root.
